@@ -111,7 +111,7 @@ Kinds(d) == (IF JParams(d) THEN {} ELSE {"param-at-call"}) \cup
             (IF JReply(d) THEN {} ELSE {"reply-differs"})
 Verdict(k) ==
   LET tr == Data[k]
-      pos == {<<c, n>> \in (1..Len(tr.convs)) \X (1..3) : n <= Len(tr.convs[c].turns)}
+      pos == UNION {{<<c, n>> : n \in 1..Len(tr.convs[c].turns)} : c \in 1..Len(tr.convs)}
       jd  == {p \in pos : Judged(p[1], tr.convs[p[1]], p[2])}
   IN [tid      |-> k,
       bad      |-> UNION {{<<p[1], p[2], kd>> : kd \in Kinds(tr.convs[p[1]].turns[p[2]])} : p \in jd},
